@@ -60,6 +60,12 @@ def project_list(tier):
     out.append(("pc4", ("f_prodcons4", {})))
     for lead in (0, 2, 4):
         out.append((f"deferwin{lead}", ("f_deferwin", {"lead": lead})))
+    # a rebuild in which a producer runs again and reproduces its output byte for byte while a
+    # consumer (a new version of its script) amends that output
+    for lead in (0, 1):
+        out.append((f"outamend{lead}", ("f_outamend", {"lead": lead, "__edits__": [
+            ("write", "src.txt", "source y\n"),
+            ("write", "w.py", projects.f_outamend(lead=lead, wv=2)["w.py"])]})))
     # incremental builds: a first build with the default schedule, user edits, then every schedule
     out.append(("chain:edit-outputs", ("f_chain", {"__edits__": [("write", "c.txt", "user\n"), ("write", "a.txt", "user\n")]})))
     out.append(("chain:edit-src+out", ("f_chain", {"__edits__": [("write", "src.txt", "edited\n"), ("remove", "c.txt")]})))
@@ -69,6 +75,11 @@ def project_list(tier):
 
 def configs(name, tier):
     jobs = (1, 4) if name == "pc4" else (1, 2, 3)
+    if name.startswith("outamend"):
+        yield {"njob": 1, "resources": None}
+        yield {"njob": 3, "resources": None}
+        yield {"njob": 3, "resources": None, "policy": "fifo"}
+        return
     if name.startswith("deferwin"):
         # two base schedules with four jobs, and the sequential one
         yield {"njob": 1, "resources": None}
@@ -88,7 +99,7 @@ def configs(name, tier):
 
 def bound_for(name, tier):
     if tier == "quick":
-        return 2 if (name.startswith("two:") and "conflict" in name) or name == "pc4" else 1
+        return 2 if (name.startswith("two:") and "conflict" in name) or name == "pc4" or name.startswith("outamend") else 1
     return 2
 
 
